@@ -491,7 +491,7 @@ where
         h ^= x;
         h = h.wrapping_mul(0x0000_0100_0000_01B3);
     };
-    match (t + it) % 4 {
+    match (t + it) % 7 {
         0 => {
             for k in 0..64i64 {
                 let g = (2 * t as i64 + 1) * (k + 1) * if k % 3 == 0 { -1 } else { 1 };
@@ -521,7 +521,49 @@ where
             m.vec_znx_rotate(t as i64 - it as i64, &mut r, 0, &a, 0);
             mix(fnv(&r.data));
         }
-        _ => mix(fnv(&shared_ops::<B>(fx, circuit, t * 2 + it % 2))),
+        3 => mix(fnv(&shared_ops::<B>(fx, circuit, t * 2 + it % 2))),
+        // the preparation / transform entry points every worker of a multi-threaded evaluation goes through with the
+        // shared module handle (tables, twiddles and any working storage behind it)
+        k => {
+            use poulpy_hal::api::*;
+            use poulpy_hal::layouts::{DataView, MatZnx, ScalarZnx};
+            let n = m.n();
+            let val = |i: usize, salt: usize| ((i * 17 + t * 29 + it * 5 + salt) % 201) as i64 - 100;
+            match k {
+                4 => {
+                    let mut sc = ScalarZnx::alloc(n, 1);
+                    for (i, x) in sc.raw_mut().iter_mut().enumerate() {
+                        *x = val(i, 1) % 2;
+                    }
+                    let mut pp = m.svp_ppol_alloc(1);
+                    m.svp_prepare(&mut pp, 0, &sc, 0);
+                    mix(fnv(pp.data().as_ref()));
+                }
+                5 => {
+                    let mut a = VecZnx::alloc(n, 1, 2);
+                    for (i, x) in a.raw_mut().iter_mut().enumerate() {
+                        *x = val(i, 2);
+                    }
+                    let mut d = m.vec_znx_dft_alloc(1, 2);
+                    m.vec_znx_dft_apply(1, 0, &mut d, 0, &a, 0);
+                    mix(fnv(d.data().as_ref()));
+                    let mut big = m.vec_znx_big_alloc(1, 2);
+                    let mut s = B::scratch(m.vec_znx_idft_apply_tmp_bytes() + 64);
+                    m.vec_znx_idft_apply(&mut big, 0, &d, 0, B::borrow(&mut s));
+                    mix(fnv(big.data().as_ref()));
+                }
+                _ => {
+                    let mut mat = MatZnx::alloc(n, 2, 1, 2, 2);
+                    for (i, x) in mat.raw_mut().iter_mut().enumerate() {
+                        *x = val(i, 3);
+                    }
+                    let mut pm = m.vmp_pmat_alloc(2, 1, 2, 2);
+                    let mut s = B::scratch(m.vmp_prepare_tmp_bytes(2, 1, 2, 2) + 64);
+                    m.vmp_prepare(&mut pm, &mat, B::borrow(&mut s));
+                    mix(fnv(pm.data().as_ref()));
+                }
+            }
+        }
     }
     h
 }
@@ -566,7 +608,7 @@ where
         rounds += 1;
         rec.evals((nthreads * iters) as u64);
         if let Some((t, it)) = *bad.lock().unwrap() {
-            rec.fail(json!({"op": "shared_module_free_running", "backend": B::NAME, "kind": "interference", "case": {"thread": t, "iteration": it, "job_kind": (t + it) % 4},
+            rec.fail(json!({"op": "shared_module_free_running", "backend": B::NAME, "kind": "interference", "case": {"thread": t, "iteration": it, "job_kind": (t + it) % 7},
                 "inner": {"round": rounds}, "why": "a job run concurrently with 7 other threads on the shared Module gave a result different from the same job run alone"}));
             return;
         }
@@ -725,8 +767,13 @@ pub fn run(run: &mut Run) {
         let budget = run.tier.pick(1500u64, 20_000u64);
         run.single(
             "shared_module_free_running/fft64-ref",
-            "COMPLEMENT, not exhaustive: 8 OS threads x 32 jobs (Galois elements of thread-specific generators and their inverses, the trace's element list, automorphism / rotation of private vectors, circuit slices on shared prepared inputs) on one shared Module, released together from a barrier and repeated for a fixed time budget; every job's digest equals the digest of the same job run alone. Catches shared mutable state behind &Module that the controlled scheduler (yield points at work-item granularity) cannot interleave",
+            "COMPLEMENT, not exhaustive: 8 OS threads x 32 jobs (Galois elements of thread-specific generators and their inverses, the trace's element list, automorphism / rotation of private vectors, circuit slices on shared prepared inputs, svp / vmp preparation, forward and inverse transforms of private data) on one shared Module, released together from a barrier and repeated for a fixed time budget; every job's digest equals the digest of the same job run alone. Catches shared mutable state behind &Module that the controlled scheduler (yield points at work-item granularity) cannot interleave",
             |rec| exec_shared_free::<pvc_common::FFT64Ref>(budget, rec),
+        );
+        run.single(
+            "shared_module_free_running/ntt120-ref",
+            "as shared_module_free_running/fft64-ref on the NTT120 reference backend (its preparation routines keep more working storage)",
+            |rec| exec_shared_free::<pvc_common::NTT120Ref>(budget, rec),
         );
         shared!(pvc_common::FFT64Ref);
         shared!(pvc_common::NTT120Ref);
